@@ -36,6 +36,7 @@ REDIRECTS = [
     _split(TS, "pub(crate) use self::weighted_shuffle::WeightedShuffle;", f"pub(crate) use {ENV}::WeightedShuffle;"),
     # the ambient generator inside sampling_strategy.rs -> counted arbitrary stream (kani_samp::ambient_rng)
     {"file": SS, "pattern": r"rand::rng\(\)", "replacement": "crate::disseminator::rotor::sampling_strategy::kani_samp::ambient_rng()"},
+    {"file": SS, "pattern": r"(?<![\w.:])rand::random\b", "replacement": "crate::disseminator::rotor::sampling_strategy::kani_samp::ambient_random", "optional": True},
 ]
 
 Q, T = ["quick", "thorough"], ["thorough"]
